@@ -225,7 +225,7 @@ def run(c, chk):
         else:
             chk.ok('R6.4', lex.rule_name(r), 'newline counts %s == line increments on all %d action path(s)' % (sorted(counts), len(lex.actions[r])),
                    sample=(counts != {0}))
-    chk.floor('R6.4 scanner rules', nrules, 40)
+    chk.floor('R6.4 scanner rules', nrules, 28)
 
     # ---- R6.5 -------------------------------------------------------------------------------------
     include_position(c, chk, lex)
